@@ -1,67 +1,749 @@
+// C30 — Character set conversion round-trips and never crashes (sql/encodings).
 package main
 
 import (
+	"bytes"
+	"encoding/binary"
 	"fmt"
+	"go/ast"
+	"go/token"
+	"os"
+	"sort"
+	"strings"
+	"unicode/utf16"
+	"unicode/utf8"
 
 	"github.com/dolthub/go-mysql-server/sql"
 	"github.com/dolthub/go-mysql-server/sql/encodings"
+	"github.com/dolthub/go-mysql-server/verifharness/hx"
 )
 
-func card(b [][2]byte) int {
-	c := 1
-	for _, x := range b {
-		c *= int(x[1]) - int(x[0]) + 1
-	}
-	return c
-}
-func pv(b [][2]byte) []int {
-	out := make([]int, len(b))
-	c := 1
-	for i := len(b) - 1; i >= 0; i-- {
-		out[i] = c
-		c *= int(b[i][1]) - int(b[i][0]) + 1
-	}
-	return out
-}
-func eq(a, b []int) bool {
-	if len(a) != len(b) {
-		return false
-	}
-	for i := range a {
-		if a[i] != b[i] {
-			return false
-		}
-	}
-	return true
+func main() { hx.Main(extract, run) }
+
+// ---------------------------------------------------------------------------------------------
+// The character sets of the freshly compiled code.
+
+type charset struct {
+	name   string
+	enc    encodings.Encoder
+	isRM   bool
+	tables encodings.VerifRangeMap
 }
 
-func main() {
+func charsets() []charset {
+	var out []charset
 	it := sql.NewCharacterSetsIterator()
 	for cs, ok := it.Next(); ok; cs, ok = it.Next() {
 		if cs.Encoder == nil {
 			continue
 		}
 		d, isRM := encodings.VerifDumpRangeMap(cs.Encoder)
-		if !isRM {
+		out = append(out, charset{name: cs.Name, enc: cs.Encoder, isRM: isRM, tables: d})
+	}
+	sort.Slice(out, func(i, j int) bool { return out[i].name < out[j].name })
+	return out
+}
+
+// ---------------------------------------------------------------------------------------------
+// Facts.
+
+func leanBounds(b [][2]byte) string {
+	parts := make([]string, len(b))
+	for i, x := range b {
+		parts[i] = fmt.Sprintf("(%d,%d)", x[0], x[1])
+	}
+	return "[" + strings.Join(parts, ",") + "]"
+}
+func leanInts(v []int) string {
+	parts := make([]string, len(v))
+	for i, x := range v {
+		if x < 0 {
+			// a negative multiplier has no counterpart in the model (Nat): make the obligation fail loudly
+			parts[i] = "0"
+		} else {
+			parts[i] = fmt.Sprintf("%d", x)
+		}
+	}
+	return "[" + strings.Join(parts, ",") + "]"
+}
+func leanEntry(e encodings.VerifEntry) string {
+	return fmt.Sprintf("⟨%s,%s,%s,%s⟩", leanBounds(e.InR), leanBounds(e.OutR), leanInts(e.InM), leanInts(e.OutM))
+}
+func leanTable(t [][]encodings.VerifEntry) string {
+	var b strings.Builder
+	b.WriteString("[")
+	for i, es := range t {
+		if i > 0 {
+			b.WriteString(",")
+		}
+		b.WriteString("\n    [")
+		for j, e := range es {
+			if j > 0 {
+				b.WriteString(",\n     ")
+			}
+			b.WriteString(leanEntry(e))
+		}
+		b.WriteString("]")
+	}
+	b.WriteString("]")
+	return b.String()
+}
+
+// hasLenGuard reports whether the function body contains `if <ident> > len(str) { return … }`.
+func hasLenGuard(fd *ast.FuncDecl) bool {
+	found := false
+	ast.Inspect(fd.Body, func(n ast.Node) bool {
+		is, ok := n.(*ast.IfStmt)
+		if !ok {
+			return true
+		}
+		be, ok := is.Cond.(*ast.BinaryExpr)
+		if !ok || be.Op != token.GTR {
+			return true
+		}
+		if _, ok := be.X.(*ast.Ident); !ok {
+			return true
+		}
+		call, ok := be.Y.(*ast.CallExpr)
+		if !ok || len(call.Args) != 1 {
+			return true
+		}
+		if f, ok := call.Fun.(*ast.Ident); !ok || f.Name != "len" {
+			return true
+		}
+		if a, ok := call.Args[0].(*ast.Ident); !ok || a.Name != "str" {
+			return true
+		}
+		for _, s := range is.Body.List {
+			if _, ok := s.(*ast.ReturnStmt); ok {
+				found = true
+			}
+		}
+		return true
+	})
+	return found
+}
+
+// loopBound returns the text of Y in the inner `for ; n <= Y [&& …]; n++` loop condition.
+func loopBounds(src *hx.Src, fd *ast.FuncDecl) []string {
+	var out []string
+	var walk func(e ast.Expr)
+	walk = func(e ast.Expr) {
+		be, ok := e.(*ast.BinaryExpr)
+		if !ok {
+			return
+		}
+		if be.Op == token.LAND {
+			walk(be.X)
+			walk(be.Y)
+			return
+		}
+		if be.Op == token.LEQ {
+			out = append(out, src.Text(be.Y))
+		}
+	}
+	ast.Inspect(fd.Body, func(n ast.Node) bool {
+		fs, ok := n.(*ast.ForStmt)
+		if !ok || fs.Cond == nil || fs.Post == nil {
+			return true
+		}
+		walk(fs.Cond)
+		return true
+	})
+	return out
+}
+
+func extract(a hx.ExtractArgs) error {
+	src, err := hx.ParseSrc(a.Repo, "sql/encodings/rangemap.go")
+	if err != nil {
+		return err
+	}
+	var b strings.Builder
+	b.WriteString("/- GENERATED on every run by the harness extractor (c30 extract) from /repo's working tree. Do not edit.\n")
+	b.WriteString("   Sources: sql/encodings/rangemap.go (go/ast), sql/charactersets.go + sql/encodings/*.go (tables dumped from the compiled code) -/\n")
+	b.WriteString("import Gms.Model.RangeMap\nnamespace Gms.Generated.C30\nopen Gms.RangeMap\n\n")
+
+	// syntactic facts about the three loops
+	fns := map[string]*ast.FuncDecl{}
+	for _, n := range []string{"Decode", "Encode", "EncodeReplaceUnknown", "DecodeRune", "EncodeRune"} {
+		fd, err := src.Func("RangeMap", n)
+		if err != nil {
+			return err
+		}
+		fns[n] = fd
+	}
+	fmt.Fprintf(&b, "def decodeHasLengthGuard : Bool := %v\n", hasLenGuard(fns["Decode"]))
+	fmt.Fprintf(&b, "def encodeHasLengthGuard : Bool := %v\n", hasLenGuard(fns["Encode"]))
+	for _, n := range []string{"Decode", "Encode", "EncodeReplaceUnknown"} {
+		lb := loopBounds(src, fns[n])
+		if len(lb) == 0 {
+			return fmt.Errorf("%s: inner search loop `for ; n <= …; n++` not found", n)
+		}
+		q := make([]string, len(lb))
+		for i, s := range lb {
+			q[i] = hx.LeanString(s)
+		}
+		fmt.Fprintf(&b, "def loopBounds_%s : List String := [%s]\n", n, strings.Join(q, ", "))
+	}
+	b.WriteString("\n")
+
+	css := charsets()
+	if len(css) == 0 {
+		return fmt.Errorf("no character set with an encoder found")
+	}
+	var names, kinds []string
+	for _, cs := range css {
+		names = append(names, cs.name)
+		kind := "native"
+		if cs.isRM {
+			kind = "rangemap"
+		}
+		kinds = append(kinds, fmt.Sprintf("(%s, %s)", hx.LeanString(cs.name), hx.LeanString(kind)))
+	}
+	fmt.Fprintf(&b, "/-- every character set that has an encoder, with the kind of encoder -/\ndef charsets : List (String × String) := [%s]\n\n", strings.Join(kinds, ", "))
+	var rmNames []string
+	for _, cs := range css {
+		if !cs.isRM {
 			continue
 		}
-		for side, tbl := range [][][]encodings.VerifEntry{d.In, d.Out} {
-			for k, es := range tbl {
-				for _, e := range es {
-					if card(e.InR) != card(e.OutR) {
-						fmt.Println(cs.Name, side, k, "CARD", e, card(e.InR), card(e.OutR))
+		rmNames = append(rmNames, cs.name)
+		fmt.Fprintf(&b, "def %s : RangeMap :=\n  { inE := %s,\n    outE := %s }\n\n", cs.name, leanTable(cs.tables.In), leanTable(cs.tables.Out))
+	}
+	parts := make([]string, len(rmNames))
+	for i, n := range rmNames {
+		parts[i] = fmt.Sprintf("(%s, %s)", hx.LeanString(n), n)
+	}
+	fmt.Fprintf(&b, "def tables : List (String × RangeMap) := [%s]\n", strings.Join(parts, ", "))
+	b.WriteString("\nend Gms.Generated.C30\n")
+	return os.WriteFile(a.Out, []byte(b.String()), 0o644)
+}
+
+// ---------------------------------------------------------------------------------------------
+// Observations of the real code.
+
+const (
+	tagFail  = 0
+	tagOK    = 1
+	tagCrash = 2
+)
+
+type res struct {
+	tag int
+	b   []byte
+}
+
+func (r res) String() string {
+	switch r.tag {
+	case tagOK:
+		return "ok:" + hx.Hex(r.b)
+	case tagFail:
+		return "fail"
+	}
+	return "crash"
+}
+
+// exact returns a copy of s whose capacity equals its length, followed in memory by `extra`
+// (len(result) = len(s), cap(result) = len(s)+len(extra)).
+func exact(s, extra []byte) []byte {
+	buf := make([]byte, len(s)+len(extra))
+	copy(buf, s)
+	copy(buf[len(s):], extra)
+	return buf[:len(s)]
+}
+
+func call2(f func([]byte) ([]byte, bool), s, extra []byte) res {
+	var out []byte
+	var ok bool
+	in := exact(s, extra)
+	if p := hx.Safe(func() { out, ok = f(in) }); p != "" {
+		return res{tag: tagCrash}
+	}
+	if !ok {
+		return res{tag: tagFail}
+	}
+	return res{tag: tagOK, b: append([]byte(nil), out...)}
+}
+
+func callRep(e encodings.Encoder, s []byte) res {
+	var out []byte
+	in := exact(s, nil)
+	if p := hx.Safe(func() { out = e.EncodeReplaceUnknown(in) }); p != "" {
+		return res{tag: tagCrash}
+	}
+	return res{tag: tagOK, b: append([]byte(nil), out...)}
+}
+
+func runeObs(r res) string {
+	switch r.tag {
+	case tagOK:
+		return "some:" + hx.Hex(r.b)
+	case tagFail:
+		return "none"
+	}
+	return "crash"
+}
+
+type fnv struct{ h uint64 }
+
+func newFnv() *fnv { return &fnv{h: 14695981039346656037} }
+func (f *fnv) byte(b byte) {
+	f.h ^= uint64(b)
+	f.h *= 1099511628211
+}
+func (f *fnv) res(r res) {
+	f.byte(byte(r.tag))
+	f.byte(byte(len(r.b)))
+	for _, b := range r.b {
+		f.byte(b)
+	}
+}
+
+// independent references for the Unicode transformation formats
+func refEncode(name string, cp rune) ([]byte, bool, bool) { // bytes, representable, have reference
+	switch name {
+	case "utf8mb4":
+		return utf8.AppendRune(nil, cp), true, true
+	case "utf8mb3":
+		if cp > 0xFFFF {
+			return nil, false, true
+		}
+		return utf8.AppendRune(nil, cp), true, true
+	case "ascii":
+		if cp > 0x7F {
+			return nil, false, true
+		}
+		return []byte{byte(cp)}, true, true
+	case "utf32":
+		var b [4]byte
+		binary.BigEndian.PutUint32(b[:], uint32(cp))
+		return b[:], true, true
+	case "utf16":
+		if cp < 0x10000 {
+			return []byte{byte(cp >> 8), byte(cp)}, true, true
+		}
+		r1, r2 := utf16.EncodeRune(cp)
+		return []byte{byte(r1 >> 8), byte(r1), byte(r2 >> 8), byte(r2)}, true, true
+	}
+	return nil, false, false
+}
+
+func isSurrogate(cp int) bool { return cp >= 0xD800 && cp <= 0xDFFF }
+
+// ---------------------------------------------------------------------------------------------
+
+func run(a hx.RunArgs) error {
+	out := hx.NewOut(a.OutDir)
+	defer out.Close()
+	out.Rule = "per character set: (blk) every Unicode scalar value in blocks [EncodeRune, Encode, EncodeReplaceUnknown, and DecodeRune/Decode of the result, digested]; " +
+		"(dblk) every 1- and 2-byte sequence (+ sampled 3/4-byte blocks) through DecodeRune/Decode and back; (enc/rep/dec/erune/drune) corpus + random strings mixing representable characters, " +
+		"unrepresentable characters, malformed and truncated UTF-8, with and without spare capacity behind the slice. A case is non-trivial when the input contains a non-ASCII byte."
+	r := hx.NewRand(a.Seed)
+	css := charsets()
+	byName := map[string]charset{}
+	for _, cs := range css {
+		byName[cs.name] = cs
+	}
+
+	nonASCII := func(bs ...[]byte) bool {
+		for _, b := range bs {
+			for _, c := range b {
+				if c >= 0x80 {
+					return true
+				}
+			}
+		}
+		return false
+	}
+
+	// --- single operations -------------------------------------------------------------------
+	encCase := func(cs charset, s, extra []byte) {
+		got := call2(cs.enc.Encode, s, extra)
+		id := out.Case(hx.List("enc", cs.name, hx.Hex(s), hx.Hex(extra)), got.String(), nonASCII(s))
+		out.Stat("enc:" + cs.name)
+		out.Stat("enc=" + []string{"fail", "ok", "crash"}[got.tag])
+		// oracle: no crash; success ⇒ decodes back; all characters representable ⇒ success
+		if got.tag == tagCrash {
+			out.OracleFail(id, "-", fmt.Sprintf("%s.Encode(%x) [cap-len=%d] panics", cs.name, s, len(extra)))
+			return
+		}
+		if got.tag == tagOK {
+			back := call2(cs.enc.Decode, got.b, nil)
+			if back.tag != tagOK || !bytes.Equal(back.b, s) {
+				out.OracleFail(id, "-", fmt.Sprintf("%s: Encode(%x)=%x but Decode of that is %s", cs.name, s, got.b, back))
+			}
+		}
+		if utf8.Valid(s) {
+			all := true
+			for _, c := range string(s) {
+				if rr := call2(cs.enc.EncodeRune, utf8.AppendRune(nil, c), nil); rr.tag != tagOK {
+					all = false
+				}
+			}
+			if all && got.tag != tagOK {
+				out.OracleFail(id, "-", fmt.Sprintf("%s: every character of %x is representable but Encode reports failure", cs.name, s))
+			}
+		}
+	}
+	repCase := func(cs charset, s []byte) {
+		got := callRep(cs.enc, s)
+		id := out.Case(hx.List("rep", cs.name, hx.Hex(s)), got.String(), nonASCII(s))
+		out.Stat("rep:" + cs.name)
+		if got.tag == tagCrash {
+			out.OracleFail(id, "-", fmt.Sprintf("%s.EncodeReplaceUnknown(%x) panics", cs.name, s))
+			return
+		}
+		// oracle on well-formed input: exactly one unit per character, '?' for the unrepresentable ones
+		if utf8.Valid(s) {
+			var want []byte
+			unk := 0
+			for _, c := range string(s) {
+				rr := call2(cs.enc.EncodeRune, utf8.AppendRune(nil, c), nil)
+				if rr.tag == tagOK {
+					want = append(want, rr.b...)
+				} else {
+					want = append(want, '?')
+					unk++
+				}
+			}
+			if unk > 0 {
+				out.Stat("rep:has-unrepresentable")
+			}
+			if !bytes.Equal(want, got.b) {
+				out.OracleFail(id, "-", fmt.Sprintf("%s.EncodeReplaceUnknown(%x)=%x, per character it should be %x", cs.name, s, got.b, want))
+			}
+		}
+	}
+	decCase := func(cs charset, s []byte) {
+		got := call2(cs.enc.Decode, s, nil)
+		id := out.Case(hx.List("dec", cs.name, hx.Hex(s)), got.String(), nonASCII(s))
+		out.Stat("dec:" + cs.name)
+		out.Stat("dec=" + []string{"fail", "ok", "crash"}[got.tag])
+		if got.tag == tagCrash {
+			out.OracleFail(id, "-", fmt.Sprintf("%s.Decode(%x) panics", cs.name, s))
+			return
+		}
+		if got.tag == tagOK {
+			back := call2(cs.enc.Encode, got.b, nil)
+			if back.tag != tagOK || !bytes.Equal(back.b, s) {
+				out.OracleFail(id, "-", fmt.Sprintf("%s: Decode(%x)=%x but Encode of that is %s", cs.name, s, got.b, back))
+			}
+		}
+	}
+	runeCase := func(cs charset, op string, s []byte) {
+		f := cs.enc.EncodeRune
+		g := cs.enc.DecodeRune
+		if op == "drune" {
+			f, g = g, f
+		}
+		got := call2(f, s, nil)
+		id := out.Case(hx.List(op, cs.name, hx.Hex(s)), runeObs(got), nonASCII(s))
+		out.Stat(op)
+		if got.tag == tagCrash {
+			out.OracleFail(id, "-", fmt.Sprintf("%s %s(%x) panics", cs.name, op, s))
+		}
+		if got.tag == tagOK {
+			back := call2(g, got.b, nil)
+			if back.tag != tagOK || !bytes.Equal(back.b, s) {
+				out.OracleFail(id, "-", fmt.Sprintf("%s %s(%x)=%x, converting back gives %s", cs.name, op, s, got.b, runeObs(back)))
+			}
+		}
+	}
+
+	// --- block sweeps ------------------------------------------------------------------------
+	blkCase := func(cs charset, lo, hi int) {
+		f := newFnv()
+		n := 0
+		bad := ""
+		for cp := lo; cp < hi; cp++ {
+			if isSurrogate(cp) {
+				continue
+			}
+			u := utf8.AppendRune(nil, rune(cp))
+			r1 := call2(cs.enc.EncodeRune, u, nil)
+			r2 := call2(cs.enc.Encode, u, nil)
+			r3 := callRep(cs.enc, u)
+			f.res(r1)
+			f.res(r2)
+			f.res(r3)
+			if r1.tag == tagOK {
+				n++
+				r4 := call2(cs.enc.DecodeRune, r1.b, nil)
+				r5 := call2(cs.enc.Decode, r1.b, nil)
+				f.res(r4)
+				f.res(r5)
+				if bad == "" && (r4.tag != tagOK || !bytes.Equal(r4.b, u) || r5.tag != tagOK || !bytes.Equal(r5.b, u)) {
+					bad = fmt.Sprintf("%s: U+%04X encodes to %x, which decodes to %s / %s", cs.name, cp, r1.b, runeObs(r4), r5)
+				}
+				if bad == "" && (r2.tag != tagOK || !bytes.Equal(r2.b, r1.b) || r3.tag != tagOK || !bytes.Equal(r3.b, r1.b)) {
+					bad = fmt.Sprintf("%s: U+%04X: EncodeRune=%x Encode=%s EncodeReplaceUnknown=%s", cs.name, cp, r1.b, r2, r3)
+				}
+			} else {
+				if bad == "" && r1.tag == tagCrash {
+					bad = fmt.Sprintf("%s: EncodeRune(U+%04X) panics", cs.name, cp)
+				}
+				if bad == "" && (r3.tag != tagOK || !bytes.Equal(r3.b, []byte{'?'})) {
+					bad = fmt.Sprintf("%s: U+%04X is unrepresentable but EncodeReplaceUnknown gives %s", cs.name, cp, r3)
+				}
+				if bad == "" && r2.tag != tagFail {
+					bad = fmt.Sprintf("%s: U+%04X is unrepresentable but Encode gives %s instead of reporting it", cs.name, cp, r2)
+				}
+			}
+			if want, rep, have := refEncode(cs.name, rune(cp)); have && bad == "" {
+				if rep != (r1.tag == tagOK) || (rep && !bytes.Equal(want, r1.b)) {
+					bad = fmt.Sprintf("%s: U+%04X: EncodeRune gives %s, the transformation format says %x (representable=%v)", cs.name, cp, runeObs(r1), want, rep)
+				}
+			}
+		}
+		obs := fmt.Sprintf("n=%d h=%016x", n, f.h)
+		id := out.Case(hx.List("blk", cs.name, fmt.Sprint(lo), fmt.Sprint(hi)), obs, hi > 0x80)
+		out.Stat("blk")
+		out.StatN("blk:codepoints", hi-lo)
+		out.StatN("blk:representable", n)
+		if bad != "" {
+			out.OracleFail(id, "-", bad)
+		}
+	}
+	dblkCase := func(cs charset, ln int, lo, hi uint64) {
+		f := newFnv()
+		n := 0
+		bad := ""
+		buf := make([]byte, ln)
+		for v := lo; v < hi; v++ {
+			x := v
+			for i := ln - 1; i >= 0; i-- {
+				buf[i] = byte(x)
+				x >>= 8
+			}
+			r1 := call2(cs.enc.DecodeRune, buf, nil)
+			r2 := call2(cs.enc.Decode, buf, nil)
+			f.res(r1)
+			f.res(r2)
+			if r1.tag == tagOK {
+				n++
+				r3 := call2(cs.enc.EncodeRune, r1.b, nil)
+				r4 := call2(cs.enc.Encode, r1.b, nil)
+				f.res(r3)
+				f.res(r4)
+				if bad == "" && (r3.tag != tagOK || !bytes.Equal(r3.b, buf) || r4.tag != tagOK || !bytes.Equal(r4.b, buf)) {
+					bad = fmt.Sprintf("%s: bytes %x decode to %x, which encodes to %s / %s", cs.name, buf, r1.b, runeObs(r3), r4)
+				}
+				if bad == "" && !utf8.Valid(r1.b) {
+					bad = fmt.Sprintf("%s: bytes %x decode to %x, which is not UTF-8", cs.name, buf, r1.b)
+				}
+			}
+			if bad == "" && (r1.tag == tagCrash || r2.tag == tagCrash) {
+				bad = fmt.Sprintf("%s: DecodeRune/Decode(%x) panics", cs.name, buf)
+			}
+		}
+		obs := fmt.Sprintf("n=%d h=%016x", n, f.h)
+		id := out.Case(hx.List("dblk", cs.name, fmt.Sprint(ln), fmt.Sprint(lo), fmt.Sprint(hi)), obs, ln > 1 || hi > 0x80)
+		out.Stat("dblk")
+		out.StatN("dblk:sequences", int(hi-lo))
+		out.StatN("dblk:decodable", n)
+		if bad != "" {
+			out.OracleFail(id, "-", bad)
+		}
+	}
+
+	// --- corpus: witnesses and regression cases first ----------------------------------------
+	if cs, ok := byName["latin1"]; ok {
+		encCase(cs, []byte("\xe9"), nil)         // F-C30-a: HEX(CONVERT('é' USING latin1)) reaches this
+		encCase(cs, []byte("\xc4\x80"), nil)     // unrepresentable character at the end of the string
+		encCase(cs, []byte("a\xc4\x80b"), nil)   // … one byte before the end
+		encCase(cs, []byte("\xc4\x80abc"), nil)  // … far enough from the end: reported
+		encCase(cs, []byte("\xc4"), []byte{0x80, 0, 0}) // spare capacity: reads past the slice
+		encCase(cs, []byte("\xc3"), []byte{0xa9}) // spare capacity completes a representable unit
+		encCase(cs, []byte("h\xc3\xa9llo"), nil)
+		repCase(cs, []byte("\xc4\x80b"))   // two characters collapse into one '?'
+		repCase(cs, []byte("\xc4\x80"))
+		repCase(cs, []byte("\xc4\x80abc"))
+		repCase(cs, []byte("\xc4\x80\xc4\x80"))
+		repCase(cs, []byte("\xe9"))
+		decCase(cs, []byte("h\xe9llo"))
+		decCase(cs, []byte{0x81, 0x8d})
+	}
+	if cs, ok := byName["utf16"]; ok {
+		encCase(cs, []byte("\xed\xa0\x80"), nil) // UTF-8 encoded surrogate: encoded into a lone surrogate
+		encCase(cs, []byte("a\xf0\x9f\x98\x80"), nil)
+		decCase(cs, []byte{0xd8, 0x00})
+		decCase(cs, []byte{0xd8, 0x3d, 0xde, 0x00})
+		decCase(cs, []byte{0x00})
+		repCase(cs, []byte("\xe9"))
+	}
+	if cs, ok := byName["utf32"]; ok {
+		encCase(cs, []byte("\xf4\x90\x80\x80"), nil) // beyond U+10FFFF
+		decCase(cs, []byte{0, 0x11, 0, 0})
+		decCase(cs, []byte{0, 0, 0xd8, 0})
+	}
+	for _, cs := range css {
+		encCase(cs, nil, nil)
+		decCase(cs, nil)
+		repCase(cs, nil)
+		encCase(cs, []byte("abc"), nil)
+	}
+
+	// --- sweeps ------------------------------------------------------------------------------
+	maxCP := 0x10000
+	blk := 256
+	if a.Thorough {
+		maxCP = 0x110000
+	}
+	for _, cs := range css {
+		for lo := 0; lo < maxCP; lo += blk {
+			blkCase(cs, lo, lo+blk)
+		}
+		if !a.Thorough {
+			// a sample of the supplementary planes in the quick tier
+			for i := 0; i < 24; i++ {
+				lo := 0x10000 + r.Intn((0x110000-0x10000)/blk)*blk
+				blkCase(cs, lo, lo+blk)
+			}
+		}
+		dblkCase(cs, 1, 0, 256)
+		for lo := uint64(0); lo < 65536; lo += 1024 {
+			dblkCase(cs, 2, lo, lo+1024)
+		}
+		n34 := 40
+		if a.Thorough {
+			n34 = 4000
+		}
+		for i := 0; i < n34; i++ {
+			// 3- and 4-byte blocks: random, and centred on the lead bytes multi-byte sets use
+			ln := 3 + r.Intn(2)
+			var lo uint64
+			switch r.Intn(3) {
+			case 0:
+				lo = r.U64() % (uint64(1) << (8 * uint(ln)))
+			case 1: // utf32 / utf16 surrogate pairs / utf8 lead bytes
+				if ln == 4 {
+					lo = uint64(r.Intn(0x12))<<16 | uint64(r.Intn(65536))
+					if r.Bool() {
+						lo = uint64(0xD800+r.Intn(0x420))<<16 | uint64(0xDC00-0x40+r.Intn(0x480))
 					}
-					if !eq(pv(e.InR), e.InM) {
-						fmt.Println(cs.Name, side, k, "INM", e, pv(e.InR))
+				} else {
+					lo = uint64(0xE0+r.Intn(16))<<16 | uint64(r.Intn(65536))
+				}
+			default:
+				lo = uint64(r.Intn(256)) << (8 * uint(ln-1))
+			}
+			lo &^= 0xFF
+			dblkCase(cs, ln, lo, lo+256)
+		}
+	}
+
+	// --- random strings ----------------------------------------------------------------------
+	// per character set: a pool of representable and unrepresentable characters
+	type pool struct{ rep, unrep []rune }
+	pools := map[string]*pool{}
+	for _, cs := range css {
+		p := &pool{}
+		for cp := 0x20; cp < 0x3000; cp++ {
+			u := utf8.AppendRune(nil, rune(cp))
+			if rr := call2(cs.enc.EncodeRune, u, nil); rr.tag == tagOK {
+				if cp < 0x80 && cp%8 != 0 {
+					continue // keep ASCII from drowning the rest
+				}
+				p.rep = append(p.rep, rune(cp))
+			} else if len(p.unrep) < 400 {
+				p.unrep = append(p.unrep, rune(cp))
+			}
+		}
+		for _, cp := range []rune{0x20AC, 0xFFFD, 0xFFFF, 0x10000, 0x1F600, 0x10FFFF, 0xD7FF, 0xE000} {
+			u := utf8.AppendRune(nil, cp)
+			if rr := call2(cs.enc.EncodeRune, u, nil); rr.tag == tagOK {
+				p.rep = append(p.rep, cp)
+			} else {
+				p.unrep = append(p.unrep, cp)
+			}
+		}
+		pools[cs.name] = p
+	}
+	malformed := [][]byte{{0x80}, {0xbf}, {0xc0, 0x80}, {0xc3}, {0xe2, 0x82}, {0xf0, 0x9f, 0x98}, {0xed, 0xa0, 0x80}, {0xed, 0xbf, 0xbf},
+		{0xf4, 0x90, 0x80, 0x80}, {0xf5}, {0xff}, {0xfe}, {0xe0, 0x80, 0x80}, {0xf0, 0x80, 0x80, 0x80}, {0xc1, 0xbf}, {0xf4, 0x8f, 0xbf}, {0xe9}}
+	genString := func(cs charset, maxUnits int) []byte {
+		p := pools[cs.name]
+		var s []byte
+		n := r.Intn(maxUnits + 1)
+		mode := r.Intn(4) // 0: all representable, 1: + unrepresentable, 2: + malformed, 3: everything
+		for i := 0; i < n; i++ {
+			k := r.Intn(10)
+			switch {
+			case mode >= 2 && mode != 1 && k == 0:
+				s = append(s, hx.Pick(r, malformed)...)
+			case mode >= 2 && k == 1:
+				s = append(s, byte(r.Intn(256)))
+			case (mode == 1 || mode == 3) && k <= 3 && len(p.unrep) > 0:
+				s = utf8.AppendRune(s, hx.Pick(r, p.unrep))
+			case len(p.rep) > 0:
+				s = utf8.AppendRune(s, hx.Pick(r, p.rep))
+			default:
+				s = append(s, byte('a'+r.Intn(26)))
+			}
+		}
+		if mode >= 2 && len(s) > 0 && r.Chance(1, 4) { // truncate inside the last character
+			s = s[:len(s)-1]
+		}
+		return s
+	}
+	nStr := 1500
+	if a.Thorough {
+		nStr = 120000
+	}
+	for _, cs := range css {
+		for i := 0; i < nStr; i++ {
+			s := genString(cs, 8)
+			switch r.Intn(8) {
+			case 0, 1, 2:
+				var extra []byte
+				if r.Chance(1, 3) {
+					extra = make([]byte, 1+r.Intn(4))
+					for j := range extra {
+						if r.Bool() {
+							extra[j] = byte(0x80 + r.Intn(0x40))
+						} else {
+							extra[j] = byte(r.Intn(256))
+						}
 					}
-					if !eq(pv(e.OutR), e.OutM) {
-						fmt.Println(cs.Name, side, k, "OUTM", e, pv(e.OutR))
+				}
+				encCase(cs, s, extra)
+			case 3, 4:
+				repCase(cs, s)
+			case 5, 6:
+				// charset-side bytes: the encoding of a representable string, sometimes damaged
+				t := callRep(cs.enc, s)
+				b := t.b
+				if r.Chance(1, 3) && len(b) > 0 {
+					switch r.Intn(3) {
+					case 0:
+						b = b[:len(b)-1]
+					case 1:
+						b[r.Intn(len(b))] = byte(r.Intn(256))
+					case 2:
+						b = append(b, byte(r.Intn(256)))
 					}
-					if side == 0 && len(e.InR) != k+1 || side == 1 && len(e.OutR) != k+1 {
-						fmt.Println(cs.Name, side, k, "LEN", e)
+				}
+				if r.Chance(1, 6) {
+					b = make([]byte, r.Intn(7))
+					for j := range b {
+						b[j] = byte(r.Intn(256))
 					}
+				}
+				decCase(cs, b)
+			default:
+				u := s
+				if len(u) > 4 {
+					u = u[:1+r.Intn(4)]
+				}
+				if len(u) == 0 {
+					u = []byte{byte(r.Intn(256))}
+				}
+				if r.Bool() {
+					runeCase(cs, "erune", u)
+				} else {
+					runeCase(cs, "drune", u)
 				}
 			}
 		}
 	}
+	return nil
 }
